@@ -604,6 +604,12 @@ func c07R6(p *core.Program, r *core.Report, pl *pipeline) {
 			case "localPkgPaths":
 				okGuard := false
 				for _, fct := range fg.FactsAt(fg.PointOf(as)) {
+					// membership form: rootPkgPaths[p.Module.Path] is true
+					if ix, isIx := ast.Unparen(fct.Cond).(*ast.IndexExpr); isIx && fct.Val {
+						if rv := core.VarOf(finfo, ix.X); rv != nil && rv.Name() == "rootPkgPaths" && strings.HasSuffix(canonBase(p, f, ix.Index, 0), ".Module.Path") {
+							okGuard = true
+						}
+					}
 					b, isBin := ast.Unparen(fct.Cond).(*ast.BinaryExpr)
 					if isBin && b.Op == token.EQL && fct.Val {
 						l, rr := canonBase(p, f, b.X, 0), canonBase(p, f, b.Y, 0)
